@@ -440,7 +440,31 @@ marginalize_h!(marginalize_1x2x3_rm02, 3, 6, 2, 1, 2, [1, 2, 3], [0, 2], 9);
 // @harness props=C04 tier=quick group=f64 bounds=shape=[1,2,3],remove=[2,1](in-this-order),cells=0..7 timeout=1200
 marginalize_h!(marginalize_1x2x3_rm21, 3, 6, 2, 1, 1, [1, 2, 3], [2, 1], 9);
 
-// @harness props=C04 tier=thorough group=f64 bounds=shape=[2,2,2,2],remove=[1,3](in-this-order),cells=0..7 timeout=1200
+// @harness props=C04 tier=quick group=f64 bounds=shape=[2,3,1],remove=[1](in-this-order),cells=0..7 timeout=1200
+marginalize_h!(marginalize_2x3x1_rm1, 3, 6, 1, 2, 2, [2, 3, 1], [1], 9);
+
+// @harness props=C04 tier=quick group=f64 bounds=shape=[2,3,1],remove=[2](in-this-order),cells=0..7 timeout=1200
+marginalize_h!(marginalize_2x3x1_rm2, 3, 6, 1, 2, 6, [2, 3, 1], [2], 9);
+
+// @harness props=C04 tier=quick group=f64 bounds=shape=[2,3,1],remove=[1,2](in-this-order),cells=0..7 timeout=1200
+marginalize_h!(marginalize_2x3x1_rm12, 3, 6, 2, 1, 2, [2, 3, 1], [1, 2], 9);
+
+// @harness props=C04 tier=quick group=f64 bounds=shape=[2,3,1],remove=[2,1](in-this-order),cells=0..7 timeout=1200
+marginalize_h!(marginalize_2x3x1_rm21, 3, 6, 2, 1, 2, [2, 3, 1], [2, 1], 9);
+
+// @harness props=C04 tier=quick group=f64 bounds=shape=[3,1],remove=[0](in-this-order),cells=0..7 timeout=1200
+marginalize_h!(marginalize_3x1_rm0, 2, 3, 1, 1, 1, [3, 1], [0], 6);
+
+// @harness props=C04 tier=quick group=f64 bounds=shape=[3,1],remove=[1](in-this-order),cells=0..7 timeout=1200
+marginalize_h!(marginalize_3x1_rm1, 2, 3, 1, 1, 3, [3, 1], [1], 6);
+
+// @harness props=C04 tier=quick group=f64 bounds=shape=[2,2,1,1],remove=[1](in-this-order),cells=0..7 timeout=1200
+marginalize_h!(marginalize_2x2x1x1_rm1, 4, 4, 1, 3, 2, [2, 2, 1, 1], [1], 7);
+
+// @harness props=C04 tier=thorough group=f64 bounds=shape=[2,2,1,1],remove=[3,1](in-this-order),cells=0..7 timeout=1200
+marginalize_h!(marginalize_2x2x1x1_rm31, 4, 4, 2, 2, 2, [2, 2, 1, 1], [3, 1], 7);
+
+// @harness props=C04 tier=quick group=f64 bounds=shape=[2,2,2,2],remove=[1,3](in-this-order),cells=0..7 timeout=1200
 marginalize_h!(marginalize_2x2x2x2_rm13, 4, 16, 2, 2, 4, [2, 2, 2, 2], [1, 3], 19);
 
 // @harness props=C04 tier=thorough group=f64 bounds=shape=[2,2,2,2],remove=[3,1](in-this-order),cells=0..7 timeout=1200
@@ -455,7 +479,7 @@ marginalize_h!(marginalize_2x2x2x2_rm201, 4, 16, 3, 1, 2, [2, 2, 2, 2], [2, 0, 1
 // @harness props=C04 tier=quick group=f64 bounds=shape=[2,2,2,2],remove=[3,2,1](in-this-order),cells=0..7 timeout=1200
 marginalize_h!(marginalize_2x2x2x2_rm321, 4, 16, 3, 1, 2, [2, 2, 2, 2], [3, 2, 1], 19);
 
-// @harness props=C04 tier=thorough group=f64 bounds=shape=[2,2,2,2],remove=[0,3,1](in-this-order),cells=0..7 timeout=1200
+// @harness props=C04 tier=quick group=f64 bounds=shape=[2,2,2,2],remove=[0,3,1](in-this-order),cells=0..7 timeout=1200
 marginalize_h!(marginalize_2x2x2x2_rm031, 4, 16, 3, 1, 2, [2, 2, 2, 2], [0, 3, 1], 19);
 
 // @harness props=C04 tier=thorough group=f64 bounds=shape=[2,2,2,2],remove=[1,2,3](in-this-order),cells=0..7 timeout=1200
@@ -463,6 +487,15 @@ marginalize_h!(marginalize_2x2x2x2_rm123, 4, 16, 3, 1, 2, [2, 2, 2, 2], [1, 2, 3
 
 // @harness props=C04 tier=thorough group=f64 bounds=shape=[2,2,2,2],remove=[3,0,2](in-this-order),cells=0..7 timeout=1200
 marginalize_h!(marginalize_2x2x2x2_rm302, 4, 16, 3, 1, 2, [2, 2, 2, 2], [3, 0, 2], 19);
+
+// @harness props=C04 tier=quick group=f64 bounds=shape=[2,2,2,2],remove=[1,3,2](in-this-order),cells=0..7 timeout=1200
+marginalize_h!(marginalize_2x2x2x2_rm132, 4, 16, 3, 1, 2, [2, 2, 2, 2], [1, 3, 2], 19);
+
+// @harness props=C04 tier=thorough group=f64 bounds=shape=[2,2,2,2],remove=[0,2,1](in-this-order),cells=0..7 timeout=1200
+marginalize_h!(marginalize_2x2x2x2_rm021, 4, 16, 3, 1, 2, [2, 2, 2, 2], [0, 2, 1], 19);
+
+// @harness props=C04 tier=thorough group=f64 bounds=shape=[2,2,2,2],remove=[2,3,1](in-this-order),cells=0..7 timeout=1200
+marginalize_h!(marginalize_2x2x2x2_rm231, 4, 16, 3, 1, 2, [2, 2, 2, 2], [2, 3, 1], 19);
 
 // @harness props=C04 tier=thorough group=f64 bounds=shape=[3,2,4],remove=[0](in-this-order),cells=0..7 timeout=1200
 marginalize_h!(marginalize_3x2x4_rm0, 3, 24, 1, 2, 8, [3, 2, 4], [0], 27);
@@ -575,11 +608,24 @@ fn marginalize_validation<const K: usize>() {
     core::mem::forget(scs);
 }
 
+/// continuation cut: the data path with a symbolic axis list is not explorable (DESIGN section 1);
+/// what marginalize_unchecked computes for valid lists is the marginalize_<shape>_rm<axes> harnesses
+fn stub_marginalize_unchecked<S: State>(s: &Spectrum<S>, axes: &[Axis]) -> Spectrum<S> {
+    // a one-cell spectrum of the reduced rank
+    let mut sv = Vec::new();
+    let mut i = axes.len();
+    while i < s.dimensions() {
+        sv.push(1usize);
+        i += 1;
+    }
+    Scs::new(vec![1.0], Shape(sv)).unwrap().into_state_unchecked()
+}
+
 macro_rules! marginalize_validation_h {
     ($name:ident, $k:literal, $unw:literal) => {
         #[kani::proof]
         #[kani::unwind($unw)]
-        #[kani::stub(RemovedAxis::<'_, Shape>::into_shape, model_into_shape)]
+        #[kani::stub(Spectrum::marginalize_unchecked, stub_marginalize_unchecked)]
         fn $name() {
             marginalize_validation::<$k>()
         }
